@@ -86,8 +86,16 @@ func NewR(prop, tier string, t *Tape, trace bool) *R {
 	return r
 }
 
+// NoHooks: never touch the hook variables (free-running mode under the race
+// detector, where library-owned goroutines of an earlier operation may still
+// be reading them).
+var NoHooks bool
+
 // Attach installs this run's handlers into the instrumented library.
 func (r *R) Attach() {
+	if NoHooks {
+		return
+	}
 	zzsimhook.Native = false
 	zzsimhook.OnKeys = r.onKeys
 	zzsimhook.OnEnter = r.onStep
@@ -98,6 +106,9 @@ func (r *R) Attach() {
 
 // Detach removes all handlers.
 func Detach() {
+	if NoHooks {
+		return
+	}
 	zzsimhook.OnKeys = nil
 	zzsimhook.OnEnter = nil
 	zzsimhook.OnTick = nil
